@@ -45,6 +45,8 @@ res['caught_every_seed_by'] = sorted(p for p, o in checks.items() if all(x['exit
 subprocess.run(['git', '-C', '/repo', 'worktree', 'remove', '--force', wt])
 # C06 regenerates the table from the mutant: restore it from /repo
 subprocess.run(['/venv/bin/python', '/verif/harness/translate_ops.py'], stdout=subprocess.DEVNULL)
+if 'C06' in pids:      # ... and rebuild the driver from the restored table
+    subprocess.run('cd /verif/lean && lake build hsdriver HealSparse', shell=True, stdout=subprocess.DEVNULL, stderr=subprocess.DEVNULL)
 d = '/verif/seeded/%s' % mid
 os.makedirs(d, exist_ok=True)
 if '--from-seeded' not in sys.argv:
